@@ -18,38 +18,47 @@
 EXTENDS SolverMachine, TLC
 
 CONSTANTS Exprs,          \* universe of token strings the environment may pass to solve()
+          Probes,         \* expressions on which Independent probes an idle instance
           ResetOnBegin,   \* BOOLEAN
-          MaxCalls        \* bound on the history length explored
+          Plans           \* set of call histories (sequences over Exprs) to explore
 
 VARIABLES left, right,    \* Tokens.left, Tokens.right of THE instance
-          pc,             \* "idle" | "tok" | "steps" | "loop"
+          pc,             \* "new" | "idle" | "tok" | "steps" | "loop"
           inp, pos, buf,  \* expression being tokenised, scan position, pending atom text
           stepi,          \* index into Steps
           out,            \* outcome of the last finished call (Polish tree or marker)
           l0, r0,         \* list contents when the running call began (after the optional reset)
-          ncalls
+          ncalls,
+          plan,           \* the history being played: sequence of expressions
+          outs            \* outcomes of the finished calls
 
-vars == <<left, right, pc, inp, pos, buf, stepi, out, l0, r0, ncalls>>
+vars == <<left, right, pc, inp, pos, buf, stepi, out, l0, r0, ncalls, plan, outs>>
 
-Init == /\ left = <<>> /\ right = <<>> /\ pc = "idle" /\ inp = <<>> /\ pos = 1 /\ buf = <<>>
+Init == /\ left = <<>> /\ right = <<>> /\ pc = "new" /\ inp = <<>> /\ pos = 1 /\ buf = <<>>
         /\ stepi = 1 /\ out = <<"#init">> /\ l0 = <<>> /\ r0 = <<>> /\ ncalls = 0
+        /\ plan = <<>> /\ outs = <<>>
+
+\* the environment decides which history it is going to play on the new instance
+ChoosePlan == /\ pc = "new" /\ plan' \in Plans /\ pc' = "idle"
+              /\ UNCHANGED <<left, right, inp, pos, buf, stepi, out, l0, r0, ncalls, outs>>
 
 Begin(s) ==
-  /\ pc = "idle" /\ ncalls < MaxCalls
+  /\ pc = "idle"
   /\ pc' = "tok" /\ inp' = s /\ pos' = 1 /\ buf' = <<>> /\ stepi' = 1
   /\ left'  = IF ResetOnBegin THEN <<>> ELSE left
   /\ right' = IF ResetOnBegin THEN <<>> ELSE right
   /\ l0' = left' /\ r0' = right'
   /\ ncalls' = ncalls + 1
-  /\ UNCHANGED out
+  /\ UNCHANGED <<out, plan, outs>>
 
-Raise == /\ pc' = "idle" /\ out' = MERR /\ UNCHANGED <<inp, pos, buf, stepi, l0, r0, ncalls>>
+Raise == /\ pc' = "idle" /\ out' = MERR /\ outs' = Append(outs, MERR)
+         /\ UNCHANGED <<inp, pos, buf, stepi, l0, r0, ncalls, plan>>
 
 \* a token that is not an operator of the table: expr.shift()
 TokText ==
   /\ pc = "tok" /\ pos <= Len(inp) /\ ~IsOperatorTok(inp[pos])
   /\ buf' = Append(buf, inp[pos]) /\ pos' = pos + 1
-  /\ UNCHANGED <<left, right, pc, inp, stepi, out, l0, r0, ncalls>>
+  /\ UNCHANGED <<left, right, pc, inp, stepi, out, l0, r0, ncalls, plan, outs>>
 
 \* pending text -> atom : [ok, right] ; the constructor may raise
 Flush(r) == IF buf = <<>> THEN [ok |-> TRUE, r |-> r]
@@ -61,7 +70,7 @@ TokOp ==
   /\ pc = "tok" /\ pos <= Len(inp) /\ IsOperatorTok(inp[pos]) /\ inp[pos] \notin MOpenToks
   /\ LET f == Flush(right) IN
      IF f.ok THEN /\ right' = Append(f.r, O(inp[pos])) /\ buf' = <<>> /\ pos' = pos + 1
-                  /\ UNCHANGED <<left, pc, inp, stepi, out, l0, r0, ncalls>>
+                  /\ UNCHANGED <<left, pc, inp, stepi, out, l0, r0, ncalls, plan, outs>>
      ELSE /\ right' = f.r /\ UNCHANGED left /\ Raise
 
 \* a parenthesis operator: consume up to the matching close, solve the arguments on a nested solver
@@ -75,38 +84,38 @@ TokOpen ==
         ELSE IF j = 0 \/ Len(args) # MNArg(inp[pos]) \/ sa.err
              THEN /\ right' = f.r /\ UNCHANGED left /\ Raise
         ELSE /\ right' = Append(f.r, F(inp[pos], sa.items)) /\ buf' = <<>> /\ pos' = j + 1
-             /\ UNCHANGED <<left, pc, inp, stepi, out, l0, r0, ncalls>>
+             /\ UNCHANGED <<left, pc, inp, stepi, out, l0, r0, ncalls, plan, outs>>
 
 TokEnd ==
   /\ pc = "tok" /\ pos > Len(inp)
   /\ LET f == Flush(right) IN
      IF f.ok THEN /\ right' = f.r /\ buf' = <<>> /\ pc' = "steps" /\ stepi' = 1
-                  /\ UNCHANGED <<left, inp, pos, out, l0, r0, ncalls>>
+                  /\ UNCHANGED <<left, inp, pos, out, l0, r0, ncalls, plan, outs>>
      ELSE /\ right' = f.r /\ UNCHANGED left /\ Raise
 
 \* a step none of whose operators is in the table is skipped
 StepSkip ==
   /\ pc = "steps" /\ stepi <= Len(Steps) /\ StepOps(stepi) = {}
   /\ stepi' = stepi + 1
-  /\ UNCHANGED <<left, right, pc, inp, pos, buf, out, l0, r0, ncalls>>
+  /\ UNCHANGED <<left, right, pc, inp, pos, buf, out, l0, r0, ncalls, plan, outs>>
 
 StepBegin ==
   /\ pc = "steps" /\ stepi <= Len(Steps) /\ StepOps(stepi) # {}
   /\ pc' = "loop"
-  /\ UNCHANGED <<left, right, inp, pos, buf, stepi, out, l0, r0, ncalls>>
+  /\ UNCHANGED <<left, right, inp, pos, buf, stepi, out, l0, r0, ncalls, plan, outs>>
 
 \* one iteration of `while self.right`
 LoopDispatch ==
   /\ pc = "loop" /\ right # <<>>
   /\ LET d == Dispatch(left, right, StepOps(stepi), Steps[stepi].otype) IN
      /\ left' = d.l /\ right' = d.r
-     /\ IF d.err THEN Raise ELSE UNCHANGED <<pc, inp, pos, buf, stepi, out, l0, r0, ncalls>>
+     /\ IF d.err THEN Raise ELSE UNCHANGED <<pc, inp, pos, buf, stepi, out, l0, r0, ncalls, plan, outs>>
 
 \* self.right = self.left ; self.left = []
 LoopEnd ==
   /\ pc = "loop" /\ right = <<>>
   /\ right' = left /\ left' = <<>> /\ pc' = "steps" /\ stepi' = stepi + 1
-  /\ UNCHANGED <<inp, pos, buf, out, l0, r0, ncalls>>
+  /\ UNCHANGED <<inp, pos, buf, out, l0, r0, ncalls, plan, outs>>
 
 \* the final test and get_right()
 Return ==
@@ -116,9 +125,11 @@ Return ==
      ELSE LET g == GetRight(right) IN
           /\ right' = g.r /\ UNCHANGED left /\ pc' = "idle"
           /\ out' = Outcome([err |-> FALSE, v |-> g.v])
-          /\ UNCHANGED <<inp, pos, buf, stepi, l0, r0, ncalls>>
+          /\ outs' = Append(outs, out')
+          /\ UNCHANGED <<inp, pos, buf, stepi, l0, r0, ncalls, plan>>
 
-Next == \/ \E s \in Exprs : Begin(s)
+Next == \/ ChoosePlan
+        \/ (pc = "idle" /\ ncalls < Len(plan) /\ Begin(plan[ncalls + 1]))
         \/ TokText \/ TokOp \/ TokOpen \/ TokEnd
         \/ StepSkip \/ StepBegin \/ LoopDispatch \/ LoopEnd \/ Return
 
@@ -127,10 +138,8 @@ Spec == Init /\ [][Next]_vars
 -----------------------------------------------------------------------------
 \* C02 : no history changes what a solve returns
 Independent ==
-  pc = "idle" =>
-    \A s \in Exprs :
-       Outcome(SolveFrom(s, IF ResetOnBegin THEN <<>> ELSE left, IF ResetOnBegin THEN <<>> ELSE right))
-         = Outcome(SolveFresh(s))
+  (pc = "idle" /\ ~ResetOnBegin) =>       \* with the reset both sides are the same expression
+    \A s \in Probes : Outcome(SolveFrom(s, left, right)) = Outcome(SolveFresh(s))
 
 \* the buffers are empty between calls (the mechanism that makes Independent hold without a reset)
 CleanAtIdle == pc = "idle" => left = <<>> /\ right = <<>>
@@ -140,6 +149,9 @@ SmallBig ==
   (pc = "idle" /\ ncalls > 0) =>
      LET b == SolveFrom(inp, l0, r0) IN /\ out = Outcome(b) /\ left = b.l /\ right = b.r
 
-\* keeps the defective variant finite
-Bounded == Len(left) + Len(right) <= 6
+\* every finished call of the history returned what a fresh instance returns (C02 on the history itself)
+HistoryFresh ==
+  \A k \in 1..Len(outs) : outs[k] = Outcome(SolveFresh(plan[k]))
+
+Finished == pc = "idle" /\ ncalls = Len(plan)
 =============================================================================
